@@ -1,27 +1,28 @@
 /-
 Path enumerations of `Market._update_time` (see SrcTickDefs.lean).
 -/
+import PamsLemmas.EvalNf
 import PamsLemmas.SrcTickDefs
 
 namespace Pams.Src
 open Pams Pams.Py
 set_option maxRecDepth 1000000
 
-theorem tickP_ttff : tickPaths true true false false = nf% (tickPaths true true false false) := by rfl
-theorem tickP_ttft : tickPaths true true false true = nf% (tickPaths true true false true) := by rfl
-theorem tickP_tttf : tickPaths true true true false = nf% (tickPaths true true true false) := by rfl
-theorem tickP_tttt : tickPaths true true true true = nf% (tickPaths true true true true) := by rfl
-theorem tickP_tfff : tickPaths true false false false = nf% (tickPaths true false false false) := by rfl
-theorem tickP_tfft : tickPaths true false false true = nf% (tickPaths true false false true) := by rfl
-theorem tickP_tftf : tickPaths true false true false = nf% (tickPaths true false true false) := by rfl
-theorem tickP_tftt : tickPaths true false true true = nf% (tickPaths true false true true) := by rfl
-theorem tickP_ftff : tickPaths false true false false = nf% (tickPaths false true false false) := by rfl
-theorem tickP_ftft : tickPaths false true false true = nf% (tickPaths false true false true) := by rfl
-theorem tickP_fttf : tickPaths false true true false = nf% (tickPaths false true true false) := by rfl
-theorem tickP_fttt : tickPaths false true true true = nf% (tickPaths false true true true) := by rfl
-theorem tickP_ffff : tickPaths false false false false = nf% (tickPaths false false false false) := by rfl
-theorem tickP_ffft : tickPaths false false false true = nf% (tickPaths false false false true) := by rfl
-theorem tickP_fftf : tickPaths false false true false = nf% (tickPaths false false true false) := by rfl
-theorem tickP_fftt : tickPaths false false true true = nf% (tickPaths false false true true) := by rfl
+theorem tickP_ttff : tickPaths true true false false = evalnf% (tickPaths true true false false) := by kernel_rfl
+theorem tickP_ttft : tickPaths true true false true = evalnf% (tickPaths true true false true) := by kernel_rfl
+theorem tickP_tttf : tickPaths true true true false = evalnf% (tickPaths true true true false) := by kernel_rfl
+theorem tickP_tttt : tickPaths true true true true = evalnf% (tickPaths true true true true) := by kernel_rfl
+theorem tickP_tfff : tickPaths true false false false = evalnf% (tickPaths true false false false) := by kernel_rfl
+theorem tickP_tfft : tickPaths true false false true = evalnf% (tickPaths true false false true) := by kernel_rfl
+theorem tickP_tftf : tickPaths true false true false = evalnf% (tickPaths true false true false) := by kernel_rfl
+theorem tickP_tftt : tickPaths true false true true = evalnf% (tickPaths true false true true) := by kernel_rfl
+theorem tickP_ftff : tickPaths false true false false = evalnf% (tickPaths false true false false) := by kernel_rfl
+theorem tickP_ftft : tickPaths false true false true = evalnf% (tickPaths false true false true) := by kernel_rfl
+theorem tickP_fttf : tickPaths false true true false = evalnf% (tickPaths false true true false) := by kernel_rfl
+theorem tickP_fttt : tickPaths false true true true = evalnf% (tickPaths false true true true) := by kernel_rfl
+theorem tickP_ffff : tickPaths false false false false = evalnf% (tickPaths false false false false) := by kernel_rfl
+theorem tickP_ffft : tickPaths false false false true = evalnf% (tickPaths false false false true) := by kernel_rfl
+theorem tickP_fftf : tickPaths false false true false = evalnf% (tickPaths false false true false) := by kernel_rfl
+theorem tickP_fftt : tickPaths false false true true = evalnf% (tickPaths false false true true) := by kernel_rfl
 
 end Pams.Src
